@@ -364,7 +364,9 @@ def run(tier: str, only=None) -> int:
             name = f"cut/{'ABDEFC'[bi]}:{tr}"
             if only and only not in name:
                 continue
-            if tier == "quick" and tr != "popen" and bi >= 2:
+            # quick: bases D..C on popen only -- except D (the survivor keeps sending) on via, where a failing
+            # write of the forwarder reaches the survivor as an error on the proxy channel
+            if tier == "quick" and tr != "popen" and bi >= 2 and not (bi == 2 and tr == "via"):
                 continue
             P = dict(base, transport=tr, N=None)
             ref = explorer.run_once(CutScn.scenario, CutScn.oracle, P, [])
@@ -377,15 +379,16 @@ def run(tier: str, only=None) -> int:
             rep.sample({"sub": name, "stream_bytes": N, "boundary_offsets": bks, "params": {k: v for k, v in P.items()}})
             desc = {"stream_bytes": N, "cut_points": N + 1, **{k: str(v) for k, v in base.items()}}
             # (1) every byte offset, default survivor schedule (+ all picks at blocking points up to the bound)
-            b_all = {"cut": 1, "ps": 0, "free": 1} if tier == "quick" else {"cut": 1, "ps": 1, "free": 1}
+            b_all = {"cut": 1, "ps": 0, "free": 1} if tier == "quick" or tr != "popen" else {"cut": 1, "ps": 1, "free": 1}
             harness.run_exploration(rep, PID, name + "/all-offsets", CutScn, P, b_all, max_execs=cap, params_desc=desc)
             rep.cov["parts"][name + "/all-offsets"]["cut_points_covered"] = N + 1
             # (2) offsets at frame boundaries / inside headers / inside payloads, crossed with preemptions
             Pb = dict(P, ks=bks)
             if tier == "quick":
-                b_bd = {"cut": 1, "ps": 1, "free": 1} if tr == "popen" else {"cut": 1, "ps": 1, "free": 0}
+                b_bd = {"cut": 1, "ps": 1, "free": 1} if tr == "popen" or bi == 2 else {"cut": 1, "ps": 1, "free": 0}
             else:
-                b_bd = {"cut": 1, "ps": 2, "free": 1}
+                # thorough: every base on every transport (quick: bases D..C on popen only), popen one step deeper
+                b_bd = {"cut": 1, "ps": 2, "free": 1} if tr == "popen" and bi in (0, 3) else {"cut": 1, "ps": 1, "free": 1}
             harness.run_exploration(rep, PID, name + "/boundary", CutScn, Pb, b_bd, max_execs=cap, params_desc={"offsets": len(bks)})
             if tr == "socket":
                 # a killed TCP peer may produce ECONNRESET instead of a clean EOF
